@@ -33,6 +33,10 @@ pub enum KeyKind {
     Edited,
     /// `.clone()` of an `OwnedWindow`
     Cloned,
+    /// the key is the RESULT of another library operation: reverse of the reversed text,
+    /// complement of the complemented text, reverse-complement, `from_raw(into_raw())`,
+    /// or `Seq::from(Kmer)`
+    Derived,
 }
 
 #[derive(Serialize, Deserialize, Clone, Debug, PartialEq, Eq)]
@@ -115,6 +119,11 @@ pub enum QPres {
     Window,
     Owned,
     Reslice,
+    /// a window of a static `dna!` / `iupac!` literal (De Bruijn sequence), when it holds the codon
+    Static,
+    /// a window of the result of reverse / complement / reverse-complement / from_raw, or the
+    /// `Deref` view of a `Kmer`
+    Derived,
 }
 
 #[derive(Serialize, Deserialize, Clone, Debug, PartialEq, Eq)]
@@ -166,7 +175,13 @@ fn gen_key_pres(rng: &mut Rng, per_word: usize) -> KeyPres {
         4..=6 => KeyKind::OwnedWindow,
         7 => KeyKind::Pushed,
         8 => KeyKind::Edited,
-        _ => KeyKind::Cloned,
+        _ => {
+            if rng.chance(1, 2) {
+                KeyKind::Cloned
+            } else {
+                KeyKind::Derived
+            }
+        }
     };
     let off = match rng.below(4) {
         0 => per_word - 1 - rng.below(3),
@@ -176,11 +191,13 @@ fn gen_key_pres(rng: &mut Rng, per_word: usize) -> KeyPres {
 }
 
 fn gen_query(rng: &mut Rng, codon: String, per_word: usize) -> Query {
-    let pres = match rng.below(8) {
+    let pres = match rng.below(10) {
         0 => QPres::Parsed,
         1..=4 => QPres::Window,
         5..=6 => QPres::Owned,
-        _ => QPres::Reslice,
+        7 => QPres::Reslice,
+        8 => QPres::Static,
+        _ => QPres::Derived,
     };
     let off = if pres == QPres::Parsed {
         0
@@ -394,6 +411,52 @@ pub fn model_answer(entries: &[(String, String)], q: &Query) -> String {
 // ------------------------------------------------------------------------------------------------
 // execution against the real library (generic over the codon codec)
 
+mod statics {
+    use bio_seq::prelude::*;
+    include!("debruijn.rs");
+    include!("debruijn_dna.rs");
+}
+
+/// The two codon codecs of C15, with what the harness needs to know about each beyond `Codec`.
+pub trait CodonCodec: Codec + ComplementMut + Send + Sync + 'static {
+    /// a window of a static literal showing exactly `text`, if the De Bruijn literal holds it
+    fn static_window(text: &str) -> Option<&'static SeqSlice<Self>>;
+    /// the letter whose complement is `letter` (complement is an involution on both alphabets)
+    fn comp_letter(letter: u8) -> u8;
+}
+
+impl CodonCodec for Dna {
+    fn static_window(text: &str) -> Option<&'static SeqSlice<Dna>> {
+        let pos = statics::DEBRUIJN_DNA_TEXT.find(text)?;
+        Some(&statics::debruijn_dna_static()[pos..pos + text.len()])
+    }
+    fn comp_letter(letter: u8) -> u8 {
+        match letter {
+            b'A' => b'T',
+            b'T' => b'A',
+            b'C' => b'G',
+            b'G' => b'C',
+            _ => panic!("harness: not a DNA letter"),
+        }
+    }
+}
+
+impl CodonCodec for Iupac {
+    fn static_window(text: &str) -> Option<&'static SeqSlice<Iupac>> {
+        if text.len() > 3 {
+            return None;
+        }
+        let pos = statics::DEBRUIJN_TEXT.find(text)?;
+        let chunk = pos / statics::DEBRUIJN_CHUNK;
+        let local = pos % statics::DEBRUIJN_CHUNK;
+        Some(&statics::debruijn_static(chunk)[local..local + text.len()])
+    }
+    fn comp_letter(letter: u8) -> u8 {
+        let m = crate::oracle::base_set(letter);
+        crate::oracle::letter_of_set(((m & 1) << 3) | ((m & 8) >> 3) | ((m & 2) << 1) | ((m & 4) >> 1))
+    }
+}
+
 fn sym<A: Codec>(c: u8) -> A {
     A::try_from_ascii(c).unwrap_or_else(|| panic!("harness: letter {c} not in codec"))
 }
@@ -402,7 +465,7 @@ fn filler<A: Codec>(rng: &mut Rng, alpha: &[u8], n: usize) -> Vec<A> {
     (0..n).map(|_| sym::<A>(alpha[rng.below(alpha.len())])).collect()
 }
 
-fn make_key<A: Codec>(text: &str, kp: &KeyPres, alpha: &[u8]) -> Seq<A> {
+fn make_key<A: CodonCodec>(text: &str, kp: &KeyPres, alpha: &[u8]) -> Seq<A> {
     let syms: Vec<A> = text.bytes().map(sym::<A>).collect();
     let n = syms.len();
     let mut rng = Rng::new(kp.fill);
@@ -418,6 +481,42 @@ fn make_key<A: Codec>(text: &str, kp: &KeyPres, alpha: &[u8]) -> Seq<A> {
                 o.clone()
             } else {
                 o
+            }
+        }
+        KeyKind::Derived => {
+            let rev: Seq<A> = syms.iter().rev().copied().collect();
+            let comp: Seq<A> = text.bytes().map(|c| sym::<A>(A::comp_letter(c))).collect();
+            let revcomp: Seq<A> = text.bytes().rev().map(|c| sym::<A>(A::comp_letter(c))).collect();
+            match rng.below(6) {
+                0 => rev.to_rev(),
+                1 => comp.to_comp(),
+                2 => revcomp.to_revcomp(),
+                3 => {
+                    // the same through offset windows of longer carriers (non-zero head offsets)
+                    let mut all = filler::<A>(&mut rng, alpha, kp.off);
+                    all.extend(rev.iter());
+                    let carrier: Seq<A> = all.into_iter().collect();
+                    carrier[kp.off..kp.off + n].to_rev()
+                }
+                4 => {
+                    let plain: Seq<A> = syms.iter().copied().collect();
+                    Seq::<A>::from_raw(n, plain.into_raw()).expect("harness: from_raw of into_raw")
+                }
+                _ => {
+                    let plain: Seq<A> = syms.iter().copied().collect();
+                    macro_rules! via_kmer {
+                        ($($k:literal),*) => {
+                            match n {
+                                $( $k if $k * (A::BITS as usize) <= 64 => {
+                                    let k: Kmer<A, $k> = Kmer::try_from(&plain[..]).expect("harness: kmer of a key");
+                                    Seq::from(k)
+                                } )*
+                                _ => plain,
+                            }
+                        };
+                    }
+                    via_kmer!(1, 2, 3, 4)
+                }
             }
         }
         KeyKind::Pushed => {
@@ -440,7 +539,7 @@ fn make_key<A: Codec>(text: &str, kp: &KeyPres, alpha: &[u8]) -> Seq<A> {
     }
 }
 
-fn ask<A: Codec, R>(q_codon: &str, pres: &QPres, off: usize, tail: usize, fill: u64, alpha: &[u8], f: impl FnOnce(&SeqSlice<A>) -> R) -> R {
+fn ask<A: CodonCodec, R>(q_codon: &str, pres: &QPres, off: usize, tail: usize, fill: u64, alpha: &[u8], f: impl FnOnce(&SeqSlice<A>) -> R) -> R {
     let syms: Vec<A> = q_codon.bytes().map(sym::<A>).collect();
     let n = syms.len();
     let mut rng = Rng::new(fill);
@@ -448,6 +547,52 @@ fn ask<A: Codec, R>(q_codon: &str, pres: &QPres, off: usize, tail: usize, fill: 
         QPres::Parsed => {
             let s = Seq::<A>::try_from(q_codon).expect("harness: parse query");
             f(&s)
+        }
+        QPres::Static if A::static_window(q_codon).is_some() => f(A::static_window(q_codon).unwrap()),
+        QPres::Derived => {
+            let mut all = filler::<A>(&mut rng, alpha, off);
+            all.extend(syms);
+            all.extend(filler::<A>(&mut rng, alpha, tail));
+            let total = all.len();
+            let letters: Vec<u8> = all.iter().map(|s| s.to_char() as u8).collect();
+            match rng.below(5) {
+                0 => {
+                    let r: Seq<A> = all.iter().rev().copied().collect();
+                    let c = r.to_rev();
+                    f(&c[off..off + n])
+                }
+                1 => {
+                    let cc: Seq<A> = letters.iter().map(|c| sym::<A>(A::comp_letter(*c))).collect();
+                    let c = cc.to_comp();
+                    f(&c[off..off + n])
+                }
+                2 => {
+                    let rc: Seq<A> = letters.iter().rev().map(|c| sym::<A>(A::comp_letter(*c))).collect();
+                    let c = rc.to_revcomp();
+                    f(&c[off..off + n])
+                }
+                3 => {
+                    let orig: Seq<A> = all.iter().copied().collect();
+                    let c = Seq::<A>::from_raw(total, orig.into_raw()).expect("harness: from_raw of into_raw");
+                    f(&c[off..off + n])
+                }
+                _ => {
+                    let carrier: Seq<A> = all.iter().copied().collect();
+                    let w = &carrier[off..off + n];
+                    macro_rules! via_kmer {
+                        ($($k:literal),*) => {
+                            match n {
+                                $( $k if $k * (A::BITS as usize) <= 64 => {
+                                    let k: Kmer<A, $k> = Kmer::try_from(w).expect("harness: kmer of a window");
+                                    f(&k)
+                                } )*
+                                _ => f(w),
+                            }
+                        };
+                    }
+                    via_kmer!(1, 2, 3, 4, 5)
+                }
+            }
         }
         _ => {
             let mut all = filler::<A>(&mut rng, alpha, off);
@@ -526,7 +671,7 @@ pub struct BuildOutcome {
 }
 
 /// Runs on the run's fresh thread: build the physical map, hand it to `from_map`, answer queries.
-fn build_and_query<A: Codec + Send + Sync>(cfg: &Config, b: &Build) -> BuildOutcome {
+fn build_and_query<A: CodonCodec>(cfg: &Config, b: &Build) -> BuildOutcome {
     let alpha = alphabet(&cfg.codec);
     let amino = |s: &str| Amino::try_from_ascii(s.as_bytes()[0]).expect("harness: amino letter");
     let key = |i: usize| make_key::<A>(&cfg.entries[i].0, &b.keys[i], alpha);
